@@ -1,57 +1,22 @@
-import CandidModel.Subtype
+import CandidModel.Proofs.SubSound
 /-
   C05 — Subtype and upgrade checks decide the spec relation, independent of order and history.
-  (first instalment: structural facts about the specification relation; soundness of the algorithm follows)
+  Structural facts about the specification relation, and soundness of the checking algorithm (memo table,
+  probes on a copy of the memo, depth budget) for it: whatever was checked before in the same run.
 -/
 namespace Candid.Props.C05
 open Candid Candid.Sub
 
 /-- the rule functional is monotone, so its greatest fixed point exists -/
-theorem F_mono {env : Env} {R S : Rel} (h : ∀ a b, R a b → S a b) : ∀ a b, F env R a b → F env S a b := by
-  intro a b hF
-  unfold F at *
-  rcases hF with h1 | h1 | h1 | h1 | h1 | h1 | ⟨a', b', e1, e2, r⟩ | ⟨fs1, fs2, e1, e2, r⟩ | ⟨fs1, fs2, e1, e2, r⟩ |
-    ⟨a1, r1, m1, a2, r2, m2, e1, e2, e3, ra, rr⟩ | ⟨ms1, ms2, e1, e2, r⟩ | ⟨x, d, e1, e2, r⟩ | ⟨x, d, e1, e2, e3, r⟩ |
-    ⟨args, t, e1, e2, r⟩ | ⟨args, t, e1, e2, r⟩
-  · exact Or.inl h1
-  · exact Or.inr (Or.inl h1)
-  · exact Or.inr (Or.inr (Or.inl h1))
-  · exact Or.inr (Or.inr (Or.inr (Or.inl h1)))
-  · exact Or.inr (Or.inr (Or.inr (Or.inr (Or.inl h1))))
-  · exact Or.inr (Or.inr (Or.inr (Or.inr (Or.inr (Or.inl h1)))))
-  · exact Or.inr (Or.inr (Or.inr (Or.inr (Or.inr (Or.inr (Or.inl ⟨a', b', e1, e2, h _ _ r⟩))))))
-  · refine Or.inr (Or.inr (Or.inr (Or.inr (Or.inr (Or.inr (Or.inr (Or.inl ⟨fs1, fs2, e1, e2, ?_⟩)))))))
-    intro p hp
-    have := r p hp
-    split at this <;> simp_all
-  · refine Or.inr (Or.inr (Or.inr (Or.inr (Or.inr (Or.inr (Or.inr (Or.inr (Or.inl ⟨fs1, fs2, e1, e2, ?_⟩))))))))
-    intro p hp
-    have := r p hp
-    split at this <;> simp_all
-  · exact Or.inr (Or.inr (Or.inr (Or.inr (Or.inr (Or.inr (Or.inr (Or.inr (Or.inr (Or.inl
-      ⟨a1, r1, m1, a2, r2, m2, e1, e2, e3, h _ _ ra, h _ _ rr⟩)))))))))
-  · refine Or.inr (Or.inr (Or.inr (Or.inr (Or.inr (Or.inr (Or.inr (Or.inr (Or.inr (Or.inr (Or.inl
-      ⟨ms1, ms2, e1, e2, ?_⟩))))))))))
-    intro p hp
-    have := r p hp
-    split at this <;> simp_all
-  · exact Or.inr (Or.inr (Or.inr (Or.inr (Or.inr (Or.inr (Or.inr (Or.inr (Or.inr (Or.inr (Or.inr (Or.inl
-      ⟨x, d, e1, e2, h _ _ r⟩)))))))))))
-  · exact Or.inr (Or.inr (Or.inr (Or.inr (Or.inr (Or.inr (Or.inr (Or.inr (Or.inr (Or.inr (Or.inr (Or.inr (Or.inl
-      ⟨x, d, e1, e2, e3, h _ _ r⟩))))))))))))
-  · exact Or.inr (Or.inr (Or.inr (Or.inr (Or.inr (Or.inr (Or.inr (Or.inr (Or.inr (Or.inr (Or.inr (Or.inr (Or.inr
-      (Or.inl ⟨args, t, e1, e2, h _ _ r⟩)))))))))))))
-  · exact Or.inr (Or.inr (Or.inr (Or.inr (Or.inr (Or.inr (Or.inr (Or.inr (Or.inr (Or.inr (Or.inr (Or.inr (Or.inr
-      (Or.inr ⟨args, t, e1, e2, h _ _ r⟩)))))))))))))
+theorem F_mono {env : Env} {R S : Rel} (h : ∀ a b, R a b → S a b) : ∀ a b, F env R a b → F env S a b :=
+  Sub.F_mono h
 
 /-- `Sub` is a fixed point: it can be unfolded one rule at a time -/
-theorem sub_unfold {env : Env} {a b : Ty} (h : Sub env a b) : F env (Sub env) a b := by
-  obtain ⟨R, hR, hab⟩ := h
-  exact F_mono (fun a b r => ⟨R, hR, r⟩) a b (hR a b hab)
+theorem sub_unfold {env : Env} {a b : Ty} (h : Sub env a b) : F env (Sub env) a b := Sub.sub_unfold h
 
 /-- coinduction principle: any relation closed under the rules is included in `Sub` -/
 theorem sub_coind {env : Env} (R : Rel) (hR : ∀ a b, R a b → F env R a b) : ∀ a b, R a b → Sub env a b :=
-  fun _ _ r => ⟨R, hR, r⟩
+  Sub.sub_coind R hR
 
 /-- the relation is reflexive -/
 theorem sub_refl (env : Env) (t : Ty) : Sub env t t :=
@@ -69,5 +34,47 @@ theorem sub_nat_int (env : Env) : Sub env (.prim .nat) (.prim .int) :=
 theorem probe_fail_keeps_memo (r : Res) (g : Gamma) (h : (probe r g).1 = false) : (probe r g).2 = g := by
   unfold probe at *
   cases r <;> simp_all
+
+/-- **The checker is sound**: if `subtype_` (mirrored with its memo table, its probes and its depth budget)
+accepts `a <: b` starting from an empty memo, then `a <: b` holds in the specification — for every environment
+whose names resolve, every pair of types over it, every depth budget. -/
+theorem checker_sound (env : Env) (hse : SafeEnv env) (n : Nat) (g' : Gamma) (a b : Ty)
+    (ha : safeTy env a = true) (hb : safeTy env b = true) (h : subAlg env n [] a b = .yes g') : Sub env a b :=
+  (subAlg_sound_history env hse n [] g' a b ha hb (justified_nil env) h).1
+
+/-- **Independent of history**: a check that starts from the memo left by any sequence of earlier successful
+checks (every pair in it justified) still only accepts subtypings of the specification, and leaves such a
+memo behind.  (A failed attempt leaves no trace: probes run on a copy, `probe_fail_keeps_memo`.) -/
+theorem checker_sound_after_history (env : Env) (hse : SafeEnv env) (n : Nat) (g g' : Gamma) (a b : Ty)
+    (ha : safeTy env a = true) (hb : safeTy env b = true) (hj : Justified env g)
+    (h : subAlg env n g a b = .yes g') : Sub env a b ∧ Justified env g' :=
+  subAlg_sound_history env hse n g g' a b ha hb hj h
+
+/-- hence for a whole sequence of checks sharing one memo: every accepted query is a subtyping of the
+specification, in whatever order the queries come -/
+theorem checker_sound_sequence (env : Env) (hse : SafeEnv env) (n : Nat) :
+    ∀ (qs : List (Ty × Ty)) (g : Gamma), Justified env g → (∀ q ∈ qs, safeTy env q.1 = true ∧ safeTy env q.2 = true) →
+      ∀ (run : List (Ty × Ty) → Gamma → Option Gamma),
+        (∀ g, run [] g = some g) →
+        (∀ q qs g, run (q :: qs) g = match subAlg env n g q.1 q.2 with | .yes g1 => run qs g1 | _ => none) →
+        ∀ gEnd, run qs g = some gEnd → ∀ q ∈ qs, Sub env q.1 q.2 := by
+  intro qs
+  induction qs with
+  | nil => intro g _ _ run _ _ gEnd _ q hq; simp at hq
+  | cons q0 rest ih =>
+    intro g hj hsafe run hnil hcons gEnd hrun q hq
+    rw [hcons] at hrun
+    cases hs : subAlg env n g q0.1 q0.2 with
+    | yes g1 =>
+      rw [hs] at hrun
+      simp only [] at hrun
+      have ⟨hsub, hj1⟩ := subAlg_sound_history env hse n g g1 q0.1 q0.2 (hsafe q0 (by simp)).1 (hsafe q0 (by simp)).2 hj hs
+      simp only [List.mem_cons] at hq
+      rcases hq with rfl | hq
+      · exact hsub
+      · exact ih g1 hj1 (fun x hx => hsafe x (by simp [hx])) run hnil hcons gEnd hrun q hq
+    | no => rw [hs] at hrun; simp at hrun
+    | out => rw [hs] at hrun; simp at hrun
+    | panic s => rw [hs] at hrun; simp at hrun
 
 end Candid.Props.C05
